@@ -67,20 +67,55 @@ func runCommand(now int64, c cmd.Command) (err error, panicMsg string) {
 	wd, _ := os.Getwd()
 	prefillTextOut(c)
 	c = throughFlags(c)
-	usedBefore(now, c)
-	panicMsg = atClock(now, func() { err = c.Execute() })
+	if pm := usedBefore(now, c); pm != "" {
+		panicMsg = pm
+	} else {
+		err, panicMsg = executeWatched(now, c)
+	}
 	if wd != "" {
 		os.Chdir(wd)
 	}
 	return
 }
 
+// executeWatched runs the command at the given clock; a command that never returns (blocked on a lock or a limiter
+// slot that an earlier, failed command of this process did not release, say) is a finding, not a reason to wait for
+// the driver's wall-clock budget.
+func executeWatched(now int64, c cmd.Command) (err error, panicMsg string) {
+	if commandWedged != "" {
+		return nil, "HANG: (not run) " + commandWedged
+	}
+	type outcome struct {
+		err error
+		pm  string
+	}
+	done := make(chan outcome, 1)
+	go func() {
+		var o outcome
+		o.pm = atClock(now, func() { o.err = c.Execute() })
+		done <- o
+	}()
+	select {
+	case o := <-done:
+		return o.err, o.pm
+	case <-time.After(commandWatchdog):
+		commandWedged = fmt.Sprintf("an earlier %T.Execute of this process never returned (waited %v)", c, commandWatchdog)
+		return nil, fmt.Sprintf("HANG: %T.Execute did not return within %v of real time (it is blocked, for instance on a file lock or a limiter slot that an earlier command of this process left behind)", c, commandWatchdog)
+	}
+}
+
+const commandWatchdog = 90 * time.Second
+
+// commandWedged is set once a command did not return: what it blocks on is process-wide state, later cases of this
+// process would only wait again.
+var commandWedged string
+
 // usedBefore executes, for a share of the cases, a reading command value once at an earlier clock with its text
 // output discarded before the execution that is judged: a command value is a description of what to do, and
 // doing it once must not change what it describes (whatever the earlier run returns is of no interest here).
 var usedBeforeCount int64
 
-func usedBefore(now int64, c cmd.Command) {
+func usedBefore(now int64, c cmd.Command) (hang string) {
 	switch c.(type) {
 	case *cmd.ViewCommand, *cmd.ViewRawCommand, *cmd.SumCommand, *cmd.DiffCommand, *cmd.SumDiffCommand:
 	default:
@@ -100,9 +135,13 @@ func usedBefore(now int64, c cmd.Command) {
 	}
 	saved := f.String()
 	f.SetString("")
-	atClock(earlier, func() { c.Execute() })
+	_, pm := executeWatched(earlier, c)
 	f.SetString(saved)
 	atomic.AddInt64(&usedBeforeCount, 1)
+	if strings.HasPrefix(pm, "HANG") {
+		return pm
+	}
+	return ""
 }
 
 // ---------------------------------------------------------------------------------------------
